@@ -617,7 +617,6 @@ package engine
 
 //@ func eval
 //@   property C07
-//@   terminates
 //@   assumed-post
 //@   checks only at-call at-call-missing
 //@   nosafety
@@ -1526,7 +1525,7 @@ package engine
 //@ func (*Parser).termOf
 //@   property C15
 //@   requires p != nil
-//@   nosafety
+//@   safety only idx
 //@   let kind = reflect.Value.Kind(o)
 //@   ensures[signed-integers-are-exact] kind == 2 || kind == 3 || kind == 4 || kind == 5 || kind == 6 ==> err == nil && result is Integer && (result as Integer) == reflect.Value.Int(o)
 //@   ensures[floats] kind == 14 && finite(reflect.Value.Float(o)) ==> err == nil && result is Float && same(result as Float, reflect.Value.Float(o))
@@ -1537,6 +1536,9 @@ package engine
 //@   bind et, eerr = (*Parser).termOf#1
 //@   loop 1 maintains[no-element-is-passed-over-after-a-failed-conversion] called(eerr) && eerr == nil
 //@   at-call List requires[a-list-of-as-many-elements-as-the-go-value-has] len(a0) == reflect.Value.Len(o)
+//@   loop 1 invariant[the-position-converted-is-never-negative] 0 <= local(i, int)
+//@   loop 1 invariant[converting-an-element-leaves-the-registered-arguments-alone] p.args == old(p.args)
+//@   ensures[the-arguments-registered-so-far-are-left-alone] p.args == old(p.args)
 
 //@ func (*Parser).term0
 //@   property C15
@@ -1552,17 +1554,19 @@ package engine
 //@ func (*Parser).SetPlaceholder
 //@   property C15
 //@   requires p != nil
-//@   nosafety
+//@   safety only idx
 //@   bind at, aerr = (*Parser).termOf#1
 //@   at-store Parser.placeholder requires[the-placeholder-atom-given] target == p && v == placeholder
 //@   at-store Parser.args requires[one-term-per-argument] target == p && len(v) == len(args)
 //@   at-call (*Parser).termOf requires[converted-under-this-parser-s-flag] a0 == p
 //@   loop 1 maintains[no-argument-is-passed-over-after-a-failed-conversion] called(aerr) && aerr == nil
+//@   loop 1 invariant[one-place-per-argument-and-the-position-filled-is-one-of-them] -1 <= $i && $i < len(args) && len(p.args) == len(args)
 
 //@ func (*Parser).term0Atom
 //@   property C15
 //@   requires p != nil
-//@   nosafety
+//@   safety only idx
+//@   checks only idx at-store at-store-missing typeinv
 //@   at-store Parser.args requires[a-placeholder-takes-the-first-remaining-argument] target == p && len(p.args) > 0 && local(t, Term) == p.args[0]
 //@   at-store Parser.args requires[the-other-arguments-remain-in-order] target == p && len(p.args) > 0 && v == p.args[1:]
 
@@ -1581,7 +1585,7 @@ package engine
 
 //@ func CharCode
 //@   property C16
-//@   nosafety
+//@   safety only idx
 //@   at-call Unify#1 requires[char-of-exactly-that-code] a2 is Atom && (a2 as Atom) == local(cd, Integer)
 //@   at-call Unify#2 requires[code-of-the-single-character] a2 is Integer && len(local(rs, []rune)) == 1 && (a2 as Integer) == local(rs, []rune)[0]
 //@   let chr = resolve(env, char)
@@ -2839,7 +2843,7 @@ package engine
 
 //@ func SubAtom
 //@   property C16
-//@   nosafety
+//@   safety only idx
 //@   trusted-frame
 //@   let whole = resolve(env, atom)
 //@   let sub = resolve(env, subAtom)
@@ -2861,6 +2865,8 @@ package engine
 //@   at-call Delay requires[every-collected-alternative-is-offered] a0 == ks
 //@   at-call Delay requires[every-start-position-up-to-the-end-of-the-text-in-characters-has-been-tried] whole is Atom && local(i, int) > len(runes(Atom.String(whole as Atom)))
 //@   loop 1 maintains[every-end-position-up-to-the-end-of-the-text-in-characters-has-been-tried] whole is Atom && j > len(runes(Atom.String(whole as Atom)))
+//@   loop 1 invariant[the-start-position-is-never-negative] 0 <= local(i, int)
+//@   loop 2 invariant[the-start-position-is-never-negative] 0 <= local(i, int)
 
 //@ func SubAtom$1
 //@   property C16
